@@ -352,6 +352,8 @@ def job_options(job):
                         if wrap:
                             v['wrapper'] = wrap
                         variants.append(v)
+        if base.get('variants'):
+            variants = [dict({k: v for k, v in base.items() if k != 'variants'}, **v) for v in base['variants']]
         if base.get('max_variants') and len(variants) > base['max_variants']:
             variants = variants[:1] + rng.sample(variants[1:], base['max_variants'] - 1)
         algs = [(v, make_algebra(v)) for v in variants]
@@ -361,10 +363,12 @@ def job_options(job):
         for it in range(base.get('random', 3)):
             gs = tuple(sorted(rng.sample(range(ref_alg.d + 1), rng.randint(1, min(2, ref_alg.d + 1)))))
             gs2 = tuple(sorted(rng.sample(range(ref_alg.d + 1), rng.randint(1, min(2, ref_alg.d + 1)))))
+            if base.get('grades_a') is not None:
+                gs, gs2 = tuple(base['grades_a']), tuple(base['grades_b'])
             ak, bk = tuple(ref_alg.indices_for_grades[gs]), tuple(ref_alg.indices_for_grades[gs2])
             use_float = False
             av, bv = frac_vals(rng, ak), frac_vals(rng, bk)
-            for name in job['ops']:
+            for name in (base.get('ops') or job['ops']):
                 binary = name in BINARY + ['div']
                 if name in ('sqrt', 'norm', 'normalized'):
                     # Study numbers: scalar + pseudoscalar-ish blade
